@@ -43,11 +43,13 @@ DIMS = {
     "ode2py": {"scheme": SCHEMES, "stiff": [[], ["x"], ["x", "y"], ["y", "nope"]], "delta": [None, 0.5], "ru": [False, True], "format": [None, "none", "black"],
                "backend": [None, "numpy", "jax"], "out": [None, "result", "sub/other.py", "name.with.dots"], "verbose": [False, True],
                "config": [None, ("cwd", {"delta": 0.25}), ("file", {"delta": 0.25}), ("cwd", {"scheme": ["generalized_rush_larsen"]}), ("cwd", {"stiff_states": ["y"], "scheme": ["hybrid_rush_larsen"]}),
-                          ("cwd", {"python": {"format": "none"}}), ("cwd", {"python": {"backend": "jax"}}), ("file", {"verbose": True}), ("cwd", {"c": {"format": "none", "to": ".c"}})]},
+                          ("cwd", {"python": {"format": "none"}}), ("cwd", {"python": {"backend": "jax"}}), ("file", {"verbose": True}), ("cwd", {"c": {"format": "none", "to": ".c"}}), ("file", {"stiff_states": ["x"], "scheme": ["hybrid_rush_larsen", "explicit_euler"]}),
+                          ("file", {"delta": 0.125, "scheme": ["generalized_rush_larsen"]}), ("file", {"python": {"format": "none", "backend": "jax"}})]},
     "ode2c": {"scheme": SCHEMES, "stiff": [[], ["x"], ["x", "y"]], "delta": [None, 0.5], "ru": [False, True], "format": [None, "none", "clang-format"],
               "to": [None, ".h", ".c"], "out": [None, "result", "sub/other.h"], "verbose": [False, True],
               "config": [None, ("cwd", {"delta": 0.25}), ("file", {"scheme": ["explicit_euler"]}), ("cwd", {"c": {"format": "none"}}), ("cwd", {"c": {"to": ".c"}}), ("cwd", {"c": {"format": "clang-format"}}),
-                         ("cwd", {"python": {"format": "none"}})]},
+                         ("cwd", {"python": {"format": "none"}}), ("cwd", {"stiff_states": ["y"], "scheme": ["hybrid_rush_larsen"]}), ("file", {"stiff_states": ["x"], "scheme": ["hybrid_rush_larsen", "explicit_euler"]}),
+                         ("file", {"verbose": True}), ("file", {"delta": 0.125, "scheme": ["generalized_rush_larsen"]})]},
     "convert": {"to": [".py", ".c", ".h", "py", "c"], "scheme": [[], ["explicit_euler"], ["hybrid_rush_larsen"], ["explicit_euler", "generalized_rush_larsen"]], "stiff": [[], ["x"]], "delta": [None, 0.5],
                 "ru": [False, True], "jax": [False, True], "out": [None, "result.py", "result.c", "result"]},
 }
